@@ -37,11 +37,12 @@ const (
 	rkTruncated                  // cut short
 	rkGarbage                    // random-looking bytes
 	rkEmpty                      // zero-length datagram
+	rkOversize                   // acceptable reply, larger than the client's 1500-byte read buffer
 	nReplyKinds
 )
 
 func (k replyKind) String() string {
-	return [...]string{"accept", "reject", "otherid", "wronghw", "requestop", "truncated", "garbage", "empty"}[k]
+	return [...]string{"accept", "reject", "otherid", "wronghw", "requestop", "truncated", "garbage", "empty", "oversize"}[k]
 }
 
 // proto abstracts over nclient4 / nclient6 for the client-core scenarios.
@@ -181,6 +182,9 @@ func (v4proto) BuildReply(reqWire []byte, kind replyKind, serial uint32, altXid 
 		b = g
 	case rkEmpty:
 		b = []byte{}
+	case rkOversize:
+		// trailing pad bytes after the end option: the 1500 bytes the client reads still decode
+		b = append(b, make([]byte, 1501+int(serial%200)-len(b))...)
 	}
 	return b
 }
@@ -327,6 +331,9 @@ func (v6proto) BuildReply(reqWire []byte, kind replyKind, serial uint32, altXid 
 		b = g
 	case rkEmpty:
 		b = []byte{}
+	case rkOversize:
+		// one big trailing option: what fits into the client's buffer ends inside it and does not decode
+		b = append(b, opt6(65020, make([]byte, 1500+int(serial%200)))...)
 	}
 	return b
 }
